@@ -451,7 +451,10 @@ fn accept_queue_full_case(st: &mut Stats, seed: u64) {
         }
         let mut task = e0.task;
         let returned = tokio::time::timeout(std::time::Duration::from_millis(5), &mut task).await.is_ok();
-        let outs = pend.collect().await;
+        let mut outs = pend.collect().await;
+        if returned {
+            outs.extend(endops::later(&e0.mux, true).await);
+        }
         drop(e0.mux);
         (returned, outs)
     });
